@@ -25,7 +25,8 @@ func init() {
 			"(6) every data-bucket write on the apply path is followed by logWrite of the same key before the next write or a successful return, the helpers in between hand on the written key / the transaction's own write set (plain writes recorded directly, transactional ones collected), verification asks the record about and reads back exactly the key / listed prefix of the operation, and the record tests a written key against the listed prefix itself (raw prefix match, as listing does), not a string derived from it; (7) every bolt write of package raft is in a reviewed table and the unlogged writers FSM.Put/Delete have no caller (DeletePrefix: chunk bookkeeping only); " +
 			"(8) the persisted and in-memory cursor of a batch are index/term of its last entry, the synthetic snapshot shown to raft and the cursor written into a snapshot's database carry the state machine's / snapshot's index and term unchanged, witnessSnapshot moves the in-memory cursor only after the persisted one was written and moves either only across a comparison establishing that the snapshot's index is not behind the current cursor (the persisted one compared inside the bolt update that writes it); " +
 			"(9) applyLog reports success for a transaction entry only if the response carries no conflict sentinel, and the sentinel's error is what it returns; (4+) the per-command state is built from its own arguments and starts outside a transaction; " +
-			"(10) a snapshot streamed from the state machine is a complete copy: in FSM.writeTo every entry the cursor yields is written to the sink before the cursor moves on, no branch looks at the scanned key except the end-of-bucket test, key and value written are the cursor's, the bucket scanned is the bucket the apply path writes and the receiver fills, and the apply path's keys in the other bucket are those the snapshot metadata re-creates.",
+			"(10) a snapshot streamed from the state machine is a complete copy: in FSM.writeTo every entry the cursor yields is written to the sink before the cursor moves on, no branch looks at the scanned key except the end-of-bucket test, key and value written are the cursor's, the bucket scanned is the bucket the apply path writes and the receiver fills, and the apply path's keys in the other bucket are those the snapshot metadata re-creates; " +
+			"(11) every protobuf decode of package raft decodes a record on its own: it resets the message (plain proto.Unmarshal, or UnmarshalOptions whose Merge field is not set), or the message it merges into is freshly allocated / Reset for every record at every caller (the snapshot sink reuses one StorageEntry for the whole stream); the snapshot stream's delimited writer (FSM.writeTo) and reader (BoltSnapshotSink.writeBoltDBFile) exist, frame as uvarint length + one message, and agree on the record type.",
 		NotDecided: "byte-identical state for all logs and batchings (values); chunked entries; hashicorp/raft's and bbolt's own guarantees (trusted); index arithmetic beyond the stated predicates.",
 		Run:        runC09,
 	})
